@@ -89,6 +89,7 @@ type mon struct {
 	cleanAfterOutage map[string]int
 
 	lastActivity time.Time
+	lastRound    map[string]time.Time // per loop: wall-clock of the last observed pass end (watchdog only)
 	finished     bool
 	closed       bool // after the final poll: nothing is answered any more
 	inconcl      []string
@@ -98,7 +99,8 @@ type mon struct {
 func newMon(p *popSpec, run *evid.Run) *mon {
 	m := &mon{p: p, run: run, ctr: map[string]*ctrState{}, byPod: map[string]*ctrState{}, releaseFail: map[int]bool{},
 		refused: map[string]int{}, prevSent: map[string]int{}, dirty: map[string]bool{}, cleanRounds: map[string]int{},
-		cleanAfterOutage: map[string]int{}, lastActivity: time.Now(), viol: map[string]bool{}}
+		cleanAfterOutage: map[string]int{}, lastActivity: time.Now(), viol: map[string]bool{},
+		lastRound: map[string]time.Time{"ip": time.Now(), "gc": time.Now()}}
 	m.cond = sync.NewCond(&m.mu)
 	for i := range p.Ctrs {
 		c := &p.Ctrs[i]
@@ -412,6 +414,7 @@ func (m *mon) snapshot(loop, phase string) {
 func (m *mon) roundEnd(l string, q int) {
 	prev := m.prevSent[l]
 	m.prevSent[l] = q
+	m.lastRound[l] = time.Now()
 	clean := !m.dirty[l] && prev > 0
 	if m.dirty[l] && m.outageState != 1 {
 		m.dirty[l] = false // the pass that overlapped the outage is over
@@ -540,10 +543,14 @@ func (m *mon) waitDone() {
 	m.mu.Lock()
 	defer m.mu.Unlock()
 	for !m.done() {
-		if time.Since(m.lastActivity) > 30*time.Second {
-			m.inconcl = append(m.inconcl, fmt.Sprintf("%s: watchdog: no inspect for 30s (rounds ip=%d gc=%d, outage state %d)",
-				m.caseID(), m.cleanRounds["ip"], m.cleanRounds["gc"], m.outageState))
-			return
+		for _, l := range []string{"ip", "gc"} {
+			if time.Since(m.lastRound[l]) > 30*time.Second {
+				m.inconcl = append(m.inconcl, fmt.Sprintf("%s: watchdog: the %s loop's sentinel (last file of its last directory) "+
+					"has not been inspected for 30s, passes cannot be counted (clean passes ip=%d gc=%d, outage state %d, last "+
+					"inspect %.0fs ago)", m.caseID(), l, m.cleanRounds["ip"], m.cleanRounds["gc"], m.outageState,
+					time.Since(m.lastActivity).Seconds()))
+				return
+			}
 		}
 		m.cond.Wait()
 	}
